@@ -29,6 +29,7 @@ type Result struct {
 	KnownHits    map[string]int64 `json:"known_hits,omitempty"`
 	Inconclusive []string         `json:"inconclusive,omitempty"`
 	Extra        map[string]any   `json:"extra,omitempty"`
+	Lists        map[string][]string `json:"lists,omitempty"`
 
 	sigset map[uint64]struct{}
 }
@@ -126,6 +127,12 @@ func (r *Result) Merge(o *Result, maxSamples int) {
 	}
 	r.Failures = append(r.Failures, o.Failures...)
 	r.Inconclusive = append(r.Inconclusive, o.Inconclusive...)
+	for k, v := range o.Lists {
+		if r.Lists == nil {
+			r.Lists = map[string][]string{}
+		}
+		r.Lists[k] = append(r.Lists[k], v...)
+	}
 	for k, v := range o.Extra {
 		switch ov := v.(type) {
 		case float64:
@@ -140,6 +147,13 @@ func (r *Result) Merge(o *Result, maxSamples int) {
 			}
 		}
 	}
+}
+
+func (r *Result) ListAdd(k, v string) {
+	if r.Lists == nil {
+		r.Lists = map[string][]string{}
+	}
+	r.Lists[k] = append(r.Lists[k], v)
 }
 
 func (r *Result) Distinct() int { return len(r.sigset) }
